@@ -27,9 +27,12 @@ def classify(r):
         feats.append("control")
     if valid and any(ord(c) > 127 for c in txt):
         feats.append("non-ascii")
+    path = "written"
+    if o["result"] == "ok" and o["printable_ok"] and o["parse_ok"] and o["matches_orig"] and o["neighbour_matches"] == 0:
+        o, path = o["render"], "canonical-rendering"
     fail = "panic" if o["result"] != "ok" else "not-printable" if not o["printable_ok"] else "not-readable" if not o["parse_ok"] \
         else "does-not-match-original" if not o["matches_orig"] else "matches-other-line"
-    return f"{r['mode']}:{fail}:{'+'.join(feats or ['plain'])}"
+    return f"{r['mode']}:{path}:{fail}:{'+'.join(feats or ['plain'])}"
 
 
 def run(prop, tier, replay=None):
@@ -64,7 +67,8 @@ def run(prop, tier, replay=None):
     def slim(r):
         o = r["obs"]
         return {"ev": r["ev"], "id": r["id"], "mode": r["mode"], "s": r.get("s", []), "variant": r.get("variant", 1),
-                "obs": {k: o.get(k, False) for k in ("result", "printable_ok", "parse_ok", "matches_orig", "neighbour_matches", "text")}}
+                "obs": dict({k: o.get(k, False) for k in ("result", "printable_ok", "parse_ok", "matches_orig", "neighbour_matches", "text")},
+                            render={k: o["render"].get(k, False) for k in ("result", "printable_ok", "parse_ok", "matches_orig", "neighbour_matches")})}
     results, printed = tlc_validate_sharded("EscapeTrace", tcfg, allrec, work, shards=min(NCPU, 12), slim=slim,
                                             tags=("VERDICT", "DRIFT"))
     for r in results:
